@@ -766,14 +766,19 @@ func (l *lexer) scanHeredoc() bool {
 		// unquote
 		var word ast.Word
 		var quoted bool
-		for _, w := range h.Word {
-			if q, ok := w.(*ast.Quote); ok {
-				word = append(word, q.Value...)
-				quoted = true
-			} else {
-				word = append(word, w)
+		var unquote func(ast.Word)
+		unquote = func(ws ast.Word) {
+			for _, w := range ws {
+				if q, ok := w.(*ast.Quote); ok {
+					// quote removal, also of an escape inside double-quotes
+					unquote(q.Value)
+					quoted = true
+				} else {
+					word = append(word, w)
+				}
 			}
 		}
+		unquote(h.Word)
 		// token → string
 		delim := l.print(word)
 	Heredoc:
